@@ -53,6 +53,17 @@ def real_logp(births, tips, T, origin, lam, mu, psi, rho, survival=True):
     return float(d.log_prob(heights))
 
 
+def real_logp_batched(births, tips, T, origin, rows, survival=True):
+    """One call with a leading batch dimension: rows = [(lam, mu, psi, rho), ...]; returns one value per row."""
+    import torch
+    from torchtree.evolution.bdsk import PiecewiseConstantBirthDeath
+    B = len(rows)
+    heights = torch.tensor([origin - t for t in tips] + [origin - b for b in births]).expand(B, -1).clone()
+    col = lambda k: torch.tensor([r[k] for r in rows])
+    d = PiecewiseConstantBirthDeath(col(0), col(1), col(2), rho=col(3), origin=torch.tensor([origin]), times=torch.tensor(T[:-1]), survival=survival)
+    return d.log_prob(heights).reshape(-1).tolist()
+
+
 def ode_reference(births, tips, T, origin, lam, mu, psi, rho, survival=True, steps=400):
     """log density of the oriented sampled tree by numerical integration of the master equations.
     Forward time s in [0, origin]; epoch i: T[i] <= s < T[i+1]; rho[i] = sampling probability at T[i+1].
@@ -180,6 +191,24 @@ def check_absolute(ctx: Ctx, rnd, tier):
         except Exception as e:
             ctx.violation(f"C09:density:raises:m{min(m, 2)}", f"{type(e).__name__}: {e}", {"births": births, "tips": tips, "T": T})
             continue
+        # the same layout evaluated for several parameter rows at once: row b must equal the single evaluation of row b
+        if it % 2 == 0:
+            rows = [(lam, mu, psi, rho)]
+            for b in range(rnd.choice([1, 2])):
+                f = 1.0 + 0.3 * (b + 1)
+                rows.append(([x * f for x in lam], [x / f for x in mu], [x * (2 - 1 / f) for x in psi], [min(0.95, r * f) for r in rho]))
+            try:
+                vals = real_logp_batched(births, tips, T, origin, rows, survival)
+                singles = [real_logp(births, tips, T, origin, *r, survival) for r in rows]
+                ctx.add("batched_evaluations")
+                if len(vals) != len(rows) or any(not close(a, b, 1e-9) for a, b in zip(vals, singles)):
+                    ctx.violation("C09:density:batched" + (":rho" if rho[-1] > 0 else ""), f"{len(rows)} parameter rows evaluated in one call give {vals}, one by one {singles}; "
+                                  f"births {births} tips {tips} boundaries {T}", {"births": births, "tips": tips, "T": T, "rows": rows})
+            except Exception as e:
+                ctx.add("batched_evaluations_raised")
+                ctx.cov.setdefault("batched_raise_samples", [])
+                if len(ctx.cov["batched_raise_samples"]) < 3:
+                    ctx.cov["batched_raise_samples"].append(f"{type(e).__name__}: {str(e)[:100]}")
         want = ode_reference(births, tips, T, origin, lam, mu, psi, rho, survival)
         if not close(got, want, 1e-6):
             kind = ("single-epoch" if m == 1 else "multi-epoch") + (":serial" if any(t < origin for t in tips) else ":contemporaneous") + \
